@@ -59,6 +59,7 @@ def replay(job):
         proj.write("bumpver.toml", project.bumpver_toml(prj["v0"], prj["pattern"], [("bumpver.toml", ['current_version = "{version}"']), ("a.txt", ["ver={version}", "pep={pep440_version}"])],
                                                         commit=True, tag=True, push=False, extra={"tag_scope": ([s["scope"] for s in hist if s["act"] == "update"] or ["default"])[0]}))
         proj.write("a.txt", "intro\nver=%s\npep=%s\n" % (prj["v0"], pep0))
+        proj.write("other.txt", "tracked, carries no version pattern\n")
         git(root, "add", "-A"); git(root, "commit", "-q", "-m", "init")
         proj.write("untracked.tmp", "never added: must not appear in any bump commit\n")
         n_unrel = 0
@@ -71,6 +72,8 @@ def replay(job):
                 args.append("--commit" if st["commit"] else "--no-commit")
                 if st["commit"]:
                     args.append("--tag-commit" if st["tagit"] else "--no-tag-commit")
+                if st.get("allow"):
+                    args.append("--allow-dirty")
                 head0 = git(root, "rev-parse", "HEAD").strip()
                 r = drive.cli(args, cwd=root, env=GENV)
                 ok = r.exit == 0
@@ -106,8 +109,13 @@ def replay(job):
                         problems.append(("tag-at-head", at, txt(st["new"])))
                     if not st["tagit"] and at:
                         problems.append(("unexpected-tag", at))
+                    if st.get("other_dirty") and " M other.txt" not in git(root, "status", "--porcelain").split("\n"):
+                        problems.append(("unrelated-modification-no-longer-uncommitted", git(root, "status", "--porcelain")))
                 if not st["ok"] and not st["commit"] and False:
                     pass
+            elif act == "touchother":
+                with open(os.path.join(root, "other.txt"), "a") as fo:
+                    fo.write("work in progress %d\n" % si)
             elif act == "usercommit":
                 git(root, "commit", "-q", "-a", "-m", "user commit")
             elif act == "unrelated":
